@@ -351,7 +351,7 @@ class NameFormatParser(Scanner):
                 verbatim.append(u'{{{0}}}'.format(''.join(self.parse_braced_string())))
             elif token.pattern is self.FORMAT_CHARS:
                 check_format_chars(token.value)
-                format_chars = token.value
+                format_chars = token.value.lower()
                 verbatim = verbatim_postfix
                 if self.optional([self.LBRACE]):
                     delimiter = ''.join(self.parse_braced_string())
